@@ -21,6 +21,9 @@ def _exact(ix, cls, f, e, depth=0):
             if _is_text_method(d) and isinstance(d.func.value, ast.Name) and d.func.value.id == e.id:
                 if e.id in params or len(defs) > 1:
                     continue    # text = text.replace(...): exact iff the other definitions of the name are
+            if isinstance(d, ast.Call) and isinstance(d.func, ast.Name) and d.func.id in ('str', 'repr') and len(d.args) == 1 and isinstance(d.args[0], ast.Name) \
+                    and d.args[0].id == e.id and (e.id in params or len(defs) > 1):
+                continue        # text = repr(text): a number becomes the decimal text it prints as (shortest round-trip representation)
             r = _exact(ix, cls, f, d, depth + 1)
             if r:
                 return r
@@ -129,6 +132,46 @@ def check_exact_lifts(ix, rep):
                 rep.ok('R-EXACT', mod.rel, sym, slot, ok, c.lineno)
             else:
                 rep.fail('R-EXACT', mod.rel, sym, 'lift:period', why, c.lineno)
+    return n
+
+
+def check_decimal_of_number(ix, rep):
+    """`Decimal(x)` is the decimal the *text* x spells; of a Python float it is the binary fraction the float holds (Decimal(0.1) =
+    0.1000000000000000055...).  Values declared through the API (`declare_const('T', 'float', 0.1)`) reach the literal conversion as the
+    objects they are.  Every `Decimal(P)` whose operand is a parameter is preceded by a conversion of a float P to its shortest decimal text
+    (`if isinstance(P, float): P = repr(P)` / an unconditional `str(P)`), or takes `str(P)` / `repr(P)` directly."""
+    n = 0
+    for mod in sorted(ix.modules.values(), key=lambda m: m.rel):
+        if '/antlr/' in mod.rel or not mod.rel.startswith('rtamt/syntax/') or ix.unimportable(mod):
+            continue
+        for fn in ast.walk(mod.tree):
+            if not isinstance(fn, ast.FunctionDef):
+                continue
+            params = [a.arg for a in fn.args.args if a.arg != 'self']
+            for c in ast.walk(fn):
+                if not (isinstance(c, ast.Call) and isinstance(c.func, ast.Name) and c.func.id == 'Decimal' and len(c.args) == 1):
+                    continue
+                a = c.args[0]
+                n += 1
+                slot = 'decimal-of:%s' % ast.unparse(a)[:30]
+                if isinstance(a, ast.Call) and isinstance(a.func, ast.Name) and a.func.id in ('str', 'repr'):
+                    rep.ok('R-EXACT', mod.rel, fn.name, slot, 'operand rendered as text first', c.lineno)
+                    continue
+                if not (isinstance(a, ast.Name) and a.id in params):
+                    rep.ok('R-EXACT', mod.rel, fn.name, slot, 'operand is not a parameter', c.lineno)
+                    continue
+                conv = False
+                for st in ast.walk(fn):
+                    if isinstance(st, ast.Assign) and len(st.targets) == 1 and isinstance(st.targets[0], ast.Name) and st.targets[0].id == a.id \
+                            and isinstance(st.value, ast.Call) and isinstance(st.value.func, ast.Name) and st.value.func.id in ('str', 'repr') \
+                            and len(st.value.args) == 1 and isinstance(st.value.args[0], ast.Name) and st.value.args[0].id == a.id and st.lineno < c.lineno:
+                        conv = True
+                if conv:
+                    rep.ok('R-EXACT', mod.rel, fn.name, slot, 'a number is turned into its decimal text before Decimal()', c.lineno)
+                else:
+                    rep.fail('R-EXACT', mod.rel, fn.name, slot, '`Decimal(%s)`: `%s` is a parameter, and a constant declared through the API as a Python float arrives here as the float -- '
+                             'Decimal(0.1) is 0.1000000000000000055511151231257827, so `always[0,T]` with T = 0.1 (s) at a period of 100 ms is rejected as "not a multiple of the '
+                             'sampling period" while the literal 0.1 and the declared text \'0.1\' are accepted' % (a.id, a.id), c.lineno)
     return n
 
 
@@ -256,8 +299,14 @@ def check(ix, rep):
         f_ = k_.methods.get('time_unit_transformer')
         if f_ is not None:
             ncache += memo.check_method(ix, rep, k_, f_, 'converter')
+    nfx = units.check_forwarding_exact(ix, rep)
+    rep.floor('arguments forwarded from the specification to the ast', nfx, 8)
+    npa = units.check_period_reaches_ast(ix, rep)
+    rep.floor('sampling settings read from the ast', npa, 2)
     nrb = unitflow.check_raw_bounds(ix, rep)
     rep.floor('functions reading the bounds of a timed node', nrb, 3)
+    ndn = check_decimal_of_number(ix, rep)
+    rep.floor('Decimal(...) conversions in the front end', ndn, 1)
     nl = check_exact_lifts(ix, rep)
     rep.floor('Fraction(...) lifts', nl, 5)
     # online: operators are stored under the printed name, so the name has to carry both bounds *with their units*
